@@ -22,12 +22,16 @@ class Violation:
 
 
 def load_known():
-    try:
-        with open(KNOWN) as f:
-            k = json.load(f)
-    except FileNotFoundError:
-        return []
-    return k.get('findings', [])
+    """known_findings.json plus known_findings.d/*.json (same format), committed, never written at run time."""
+    import glob
+    out = []
+    for p in [KNOWN] + sorted(glob.glob(os.path.join(VERIF, 'known_findings.d', '*.json'))):
+        try:
+            with open(p) as f:
+                out += json.load(f).get('findings', [])
+        except FileNotFoundError:
+            pass
+    return out
 
 
 def split(violations):
